@@ -61,7 +61,9 @@ type internalApp struct {
 }
 
 type up4ApplicationFilter struct {
-	appIP     uint32
+	appIP uint32
+	// appIPMask is part of the key: 10.0.0.0/8 and 10.0.0.0/16 are two applications
+	appIPMask uint32
 	appL4Port portRange
 	appProto  uint8
 }
@@ -167,11 +169,13 @@ func toUP4ApplicationFilter(p pdr) up4ApplicationFilter {
 	if p.IsUplink() {
 		appFilter = up4ApplicationFilter{
 			appIP:     p.appFilter.dstIP,
+			appIPMask: p.appFilter.dstIPMask,
 			appL4Port: p.appFilter.dstPortRange,
 		}
 	} else if p.IsDownlink() {
 		appFilter = up4ApplicationFilter{
 			appIP:     p.appFilter.srcIP,
+			appIPMask: p.appFilter.srcIPMask,
 			appL4Port: p.appFilter.srcPortRange,
 		}
 	}
